@@ -262,10 +262,10 @@ def _dispatch(it, st, stack, fr, dest, c, args, ret_bb):
         if isinstance(v, Agg) and v.ty == 'Option' and v.variant == 'None':
             return NONE()
         raise Unsupported('from_residual of %r' % (v,))
-    m = re.match(r'^Option::<.*?>::(ok_or_else|ok_or|cloned|copied|as_ref|as_mut|map|is_some|is_none|unwrap_or|and_then|take)(::<.*>)?$', c)
+    m = re.match(r'^Option::<.*?>::(ok_or_else|ok_or|cloned|copied|as_ref|as_mut|map|is_some|is_none|unwrap_or|and_then|take|replace|insert)(::<.*>)?$', c)
     if m:
         op = m.group(1)
-        o = deref(args[0]) if op in ('as_ref', 'as_mut', 'is_some', 'is_none', 'take') else args[0]
+        o = deref(args[0]) if op in ('as_ref', 'as_mut', 'is_some', 'is_none', 'take', 'replace', 'insert') else args[0]
         if not (isinstance(o, Agg) and o.ty == 'Option'):
             raise Unsupported('%s of %r' % (op, o))
         is_some = o.variant == 'Some'
@@ -290,6 +290,11 @@ def _dispatch(it, st, stack, fr, dest, c, args, ret_bb):
             cellv = args[0].cell
             cellv.v = NONE()
             return o
+        if op in ('replace', 'insert'):
+            cellv = args[0].cell
+            new = some(args[1])
+            cellv.v = new
+            return o if op == 'replace' else Ref(new.fields[0])
         if op in ('map', 'and_then'):
             if not is_some:
                 return NONE()
